@@ -16,3 +16,61 @@ package cfg
 //@   property C02,C20
 //@   modifies *
 //@   ensures[levels_handed_over; C02] err == nil ==> t.Validation_level_legacy.Level == c.Validation_level_legacy.Level && t.Validation_level_m20.Level == c.Validation_level_m20.Level && t.Validate_order == c.Validate_order && t.SpoolDir == c.Spool_dir
+
+// ---------------------------------------------------------------- table.go: the TOML sections (C20)
+// [[rewriter]] sections: one rule per section, in file order, each with exactly the configured old/new/not/max --
+// the same rule the addRewriter command builds (both go through rewriter.New and table.AddRewriter).
+// (the ghost call logs of table.Interface are declared with the command readers, package imperatives)
+//@ spec rwOldOf(e elem) bytes := eSv(eP1(eP1(e)))
+//@ spec rwNewOf(e elem) bytes := eSv(eP1(eP2(eP1(e))))
+//@ spec rwNotOf(e elem) bytes := eSv(eP1(eP2(eP2(eP1(e)))))
+//@ spec rwMaxOf(e elem) int := eIv(eP1(eP2(eP2(eP2(eP1(e))))))
+//@ func InitRewrite(table table.Interface, config Config) (err error)
+//@   property C20
+//@   requires table != nil && table.ref != 0
+//@   let L0 := calls(table.AddRewriter)
+//@   modifies calls(table.AddRewriter)
+//@   ensures[one_rule_per_section_in_order; C20] err == nil ==> llen(calls(table.AddRewriter)) == llen(L0) + len(config.Rewriter)
+//@        && (forall j int :: 0 <= j && j < len(config.Rewriter) ==> rwOldOf(lget(calls(table.AddRewriter), llen(L0) + j)) == config.Rewriter[j].Old && rwNewOf(lget(calls(table.AddRewriter), llen(L0) + j)) == config.Rewriter[j].New
+//@             && rwNotOf(lget(calls(table.AddRewriter), llen(L0) + j)) == config.Rewriter[j].Not && rwMaxOf(lget(calls(table.AddRewriter), llen(L0) + j)) == config.Rewriter[j].Max)
+//@   loop 1:
+//@     invariant[idx] 0 <= #i && #i <= len(#s) && #s == config.Rewriter
+//@     invariant[added_so_far] llen(calls(table.AddRewriter)) == llen(L0) + #i
+//@        && (forall j int :: 0 <= j && j < #i ==> rwOldOf(lget(calls(table.AddRewriter), llen(L0) + j)) == config.Rewriter[j].Old && rwNewOf(lget(calls(table.AddRewriter), llen(L0) + j)) == config.Rewriter[j].New
+//@             && rwNotOf(lget(calls(table.AddRewriter), llen(L0) + j)) == config.Rewriter[j].Not && rwMaxOf(lget(calls(table.AddRewriter), llen(L0) + j)) == config.Rewriter[j].Max)
+
+// [[aggregation]] sections: one aggregator per section, in file order, built from exactly the configured options
+// ("sub" wins over the older spelling "substr"); the aggregator's output goes to the table's input.
+//@ spec aggOf(e elem) *aggregator.Aggregator := eIv(eP1(e))
+//@ func InitAggregation(table table.Interface, config Config) (err error)
+//@   property C20
+//@   requires table != nil && table.ref != 0
+//@   let L0 := calls(table.AddAggregator)
+//@   modifies *
+//@   ensures[one_aggregator_per_section_in_order; C20] err == nil ==> llen(calls(table.AddAggregator)) == llen(L0) + len(config.Aggregation)
+//@        && (forall j int :: 0 <= j && j < len(config.Aggregation) ==> aggAsConfigured(aggOf(lget(calls(table.AddAggregator), llen(L0) + j)), config.Aggregation[j]))
+//@   loop 1:
+//@     invariant[idx] 0 <= #i && #i <= len(#s) && #s == config.Aggregation
+//@     invariant[added_so_far] llen(calls(table.AddAggregator)) == llen(L0) + #i
+//@        && (forall j int :: 0 <= j && j < #i ==> aggAsConfigured(aggOf(lget(calls(table.AddAggregator), llen(L0) + j)), config.Aggregation[j]))
+//@ spec aggAsConfigured(a *aggregator.Aggregator, c Aggregation) bool := a != nil && allocated(a) && a.Fun == c.Function && a.OutFmt == c.Format && a.Cache == c.Cache && a.DropRaw == c.DropRaw
+//@      && a.Matcher.Prefix == c.Prefix && a.Matcher.NotPrefix == c.NotPrefix && a.Matcher.Sub == (len(c.Sub) > 0 ? c.Sub : c.Substr) && a.Matcher.NotSub == c.NotSub && a.Matcher.Regex == c.Regex && a.Matcher.NotRegex == c.NotRegex
+
+// blacklist = [ "<kind> <pattern>", ... ]: one entry per string, in order; exactly the named condition is set to the
+// rest of the string after the first space -- the same matcher the addBlack command builds.
+//@ spec blOf(e elem) *matcher.Matcher := eIv(eP1(e))
+//@ spec blAsConfigured(m *matcher.Matcher, entry bytes) bool := m != nil && allocated(m)
+//@      && m.Prefix == (bpart(entry, " ", 0) == "prefix" ? bafter(entry, " ") : "") && m.NotPrefix == (bpart(entry, " ", 0) == "notPrefix" ? bafter(entry, " ") : "")
+//@      && m.Sub == (bpart(entry, " ", 0) == "sub" ? bafter(entry, " ") : "") && m.NotSub == (bpart(entry, " ", 0) == "notSub" ? bafter(entry, " ") : "")
+//@      && m.Regex == (bpart(entry, " ", 0) == "regex" ? bafter(entry, " ") : "") && m.NotRegex == (bpart(entry, " ", 0) == "notRegex" ? bafter(entry, " ") : "")
+//@ func InitBlacklist(table table.Interface, config Config) (err error)
+//@   property C20
+//@   requires table != nil && table.ref != 0
+//@   let L0 := calls(table.AddBlacklist)
+//@   modifies *
+//@   ensures[one_entry_per_string_in_order; C20] err == nil ==> llen(calls(table.AddBlacklist)) == llen(L0) + len(config.BlackList)
+//@        && (forall j int :: 0 <= j && j < len(config.BlackList) ==> blAsConfigured(blOf(lget(calls(table.AddBlacklist), llen(L0) + j)), config.BlackList[j]))
+//@   loop 1:
+//@     invariant[idx] 0 <= #i && #i <= len(#s) && #s == config.BlackList
+//@     invariant[added_so_far] llen(calls(table.AddBlacklist)) == llen(L0) + #i
+//@        && (forall j int :: 0 <= j && j < #i ==> blAsConfigured(blOf(lget(calls(table.AddBlacklist), llen(L0) + j)), config.BlackList[j]))
